@@ -85,7 +85,8 @@ MANIFEST = dict(
          'parse_block: sections are compiled from text[section start : start of the closing / continuation tag]; skip_eol is applied '
          'exactly after the open, continuation and close tag; nested tags are skipped whole; one item appended. skip_eol skips only '
          '[ \\t]*\\n (regular-expression inclusion proved for the pattern in the source). Renderer: literal blocks pass through '
-         'unchanged, in order (AST obligations).',
+         'unchanged, in order (AST obligations).'
+         ' Assumptions of the parse() proof made obligations: the stateful tag matcher is created per parse and compilation is one locked region.',
     note='Trusted: pyvc, z3, cvc5, CPython ast. The concatenation law is covered by the bounded native search only.',
     technique='contract-based deductive verification (pyvc symbolic execution over symbolic source text, inductive loop invariants with termination measures, z3/cvc5 strings and regular expressions)',
     design_ref='DESIGN.md 4 C01',
